@@ -36,6 +36,7 @@ ASSUMPTIONS = [
     'a failure showing several known triggers at once is attributed (to the first key) only if neutralising exactly those triggers makes it pass',
 ]
 REQUIRED = [
+    'server.redirected_by_itself_for_a_target_not_in_normal_form',
     'server.cut_firstline', 'server.cut_firstline_crlf', 'server.cut_header', 'server.cut_header_crlf', 'server.cut_crlfcrlf',
     'server.cut_continuation_line', 'server.cut_head_body_boundary', 'server.cut_cl_body', 'server.cut_chunk_size_line',
     'server.cut_chunk_data', 'server.cut_chunk_data_crlf', 'server.cut_zero_line', 'server.cut_after_zero_line',
@@ -54,6 +55,7 @@ K_FIRSTLINE = 'http.firstline-crlf-split'
 K_TAIL = 'http.chunked-tail-after-zero-chunk-split'
 K_TECASE = 'http.chunked-coding-name-case-split'
 
+NOT_NORMAL = re.compile(rb'//|/\./|/\.\./|%7[eE]|;|%41')
 DATE_RE = re.compile(rb'(?im)^Date: [^\r\n]*')
 
 
@@ -146,13 +148,20 @@ def deliver_server(msgs, cutss):
                 per.append(None)
                 continue
             m_out, m_seen, m_exc = len(w.out), len(probe.seen), len(w.exceptions)
-            for chunk in E['cuts_to_chunks'](msg, cuts):
+            chunks = E['cuts_to_chunks'](msg, cuts)
+            early = None
+            for ci, chunk in enumerate(chunks):
                 _inject(w, E['read'](s, chunk))
+                if ci < len(chunks) - 1 and early is None and (len(w.out) > m_out or len(probe.seen) > m_seen):
+                    # something was dispatched / written / closed before the last bytes of the message had arrived
+                    early = {'after_bytes': sum(len(c) for c in chunks[:ci + 1]), 'of': len(msg), 'request_events': len(probe.seen) - m_seen,
+                             'written': b''.join(x[2] for x in w.out[m_out:] if x[0] == 'write')[:80], 'closes': sum(1 for x in w.out[m_out:] if x[0] == 'close')}
                 if any(x[0] == 'close' for x in w.out[m_out:]):
                     alive = False
                     break
             out = w.out[m_out:]
             per.append({
+                'early': early,
                 'events': probe.seen[m_seen:],
                 'written': DATE_RE.sub(b'Date: X', b''.join(x[2] for x in out if x[0] == 'write' and x[1] is s)),
                 'closes': sum(1 for x in out if x[0] == 'close'),
@@ -339,6 +348,11 @@ def compare(side, ref, obs):
             return ('SAME_EVENTS', {'message': i, 'one_piece_events': a['events'], 'segmented_events': o['events'],
                                     'segmented_written': o.get('written', b'')[:200], 'segmented_exceptions': o['exceptions']})
         if side == 'server':
+            if o.get('early'):
+                # the answer to a well-formed message may depend on all of its bytes: nothing of it may go out (and nothing may be dispatched)
+                # while some of them have not arrived yet
+                return ('SAME_BYTES_WRITTEN', dict(o['early'], message=i, note='the server acted on a well-formed message before its last bytes had arrived',
+                                                   one_piece_written=a['written'][:120]))
             if a['written'] != o['written'] or a['closes'] != o['closes'] or a['foreign_writes'] != o['foreign_writes']:
                 return ('SAME_BYTES_WRITTEN', {'message': i, 'one_piece_written': a['written'][:300], 'segmented_written': o['written'][:300],
                                                'one_piece_closes': a['closes'], 'segmented_closes': o['closes'],
@@ -371,6 +385,14 @@ def check_one_piece(ctx, case):
             b.fail(one, 'ONE_PIECE_SINGLE_EVENT_MATCHING_BYTES', {'message': i, 'problem': 'connection was closed before this message of a keep-alive sequence'},
                    dedup=side + ':closed-early')
             return
+        if side == 'server' and not o['events'] and NOT_NORMAL.search(msg.split(b' ', 2)[1] if msg.count(b' ') >= 2 else b'') and \
+                re.match(rb'HTTP/1\.[01] 30[1278] ', o.get('written', b'')):
+            # a target that is not in the server's normal form: it redirects by itself, the application is not asked (only the sameness
+            # of that answer under segmentation is this property's business)
+            b.reached('server.redirected_by_itself_for_a_target_not_in_normal_form')
+            if o['closes']:
+                return      # ... and it ends the connection with that answer: what followed in the sequence is never read
+            continue
         if len(o['events']) != 1:
             b.fail(one, 'ONE_PIECE_SINGLE_EVENT_MATCHING_BYTES', {'message': i, 'problem': 'one-piece delivery yields %d events' % len(o['events']),
                                                                  'events': o['events'], 'written': o.get('written', b'')[:300],
@@ -539,6 +561,11 @@ SERVER_CORPUS = [
     # obs-text: bytes >= 0x80 in field values (raw UTF-8, Latin-1), also on a continuation line; every cut makes some read begin with one
     b'GET /obs HTTP/1.1\r\nHost: h\r\nX-Name: caf\xc3\xa9 \xe9t\xe9\r\nCookie: n=\xe2\x82\xac\r\nX-Fold: a\r\n \xfcber\r\n\r\n',
     b'POST /obs2 HTTP/1.1\r\nHost: h\r\nContent-Disposition: attachment; filename="\xe9t\xe9.txt"\r\nContent-Length: 4\r\n\r\n\xff\x80ok',
+    # targets that are legal but not in the server's normal form (it answers them itself with a redirect), with bodies
+    b'POST /%7Euser/upload?x=1 HTTP/1.1\r\nHost: h\r\nContent-Length: 11\r\n\r\nhello world',
+    b'PUT /files//report.txt HTTP/1.0\r\nConnection: keep-alive\r\nContent-Length: 4\r\n\r\nabcd',
+    b'POST /a/./b HTTP/1.1\r\nHost: h\r\nTransfer-Encoding: chunked\r\n\r\n' + chunked([b'abc', b'de']),
+    b'POST /a/../b;p=1 HTTP/1.1\r\nHost: h\r\nContent-Length: 3\r\n\r\nxyz',
 ]
 SERVER_SEQUENCES = [
     [0, 1, 0],
@@ -552,6 +579,8 @@ SERVER_SEQUENCES = [
     [16, 0],
     [15, 20],
     [21, 22, 0],
+    [0, 23],
+    [6, 25, 0],
 ]
 # gzip-coded bodies exercise the parser's decompressor carry-over; the decoded body is not compared with the bytes
 GZ = gzip.compress(b'hello world, hello world, hello world', mtime=0)
@@ -745,6 +774,8 @@ def gen_request(rng, keepalive, allow_head=True):
         path += '/'
     if rng.random() < 0.1:
         path += '%20x'
+    if rng.random() < 0.08:
+        path = rng.choice(['/%7Eu', '/a//b', '/a/./b', '/a/../b', '/x;p=1', '/a%41']) + (path if path != '/' else '')     # not in the server's normal form
     target = path
     r = rng.random()
     if r < 0.45:
